@@ -132,3 +132,61 @@ package sizes
 //@ property C01: (*HistorySize).recordBlob (*HistorySize).recordTree (*HistorySize).recordCommit (*HistorySize).recordTag (*HistorySize).recordReference
 //@ property C05: (*TreeSize).addDescendent (*TreeSize).addBlob (*TreeSize).addLink (*TreeSize).addSubmodule (*HistorySize).recordBlob (*HistorySize).recordTree (*HistorySize).recordCommit (*HistorySize).recordTag (*HistorySize).recordReference
 //@ property C02: (*HistorySize).recordBlob (*HistorySize).recordTree (*HistorySize).recordCommit
+
+// ---------------------------------------------------------------- footnotes.go (C19)
+// Strings are compared through their abstract content key (keyof), so the
+// invariant and the contract hold whatever bytes the footnote texts contain.
+// wfFootnotes: texts and numbers are in bijection, numbered 1..k in order of
+// first citation.
+//@ spec wfFootnotes(f *Footnotes) bool = len(f.indexes) == len(f.footnotes) && (forall t Key :: has(f.indexes, t) ==> 1 <= f.indexes[t] && f.indexes[t] <= len(f.footnotes) && keyof(f.footnotes[f.indexes[t]-1]) == t) && (forall i int :: 0 <= i && i < len(f.footnotes) ==> has(f.indexes, keyof(f.footnotes[i])) && f.indexes[keyof(f.footnotes[i])] == i+1)
+
+//@ func NewFootnotes
+//@   pure
+//@   ensures result != nil && fresh(result) && wfFootnotes(result) && len(result.footnotes) == 0
+
+//@ func (*Footnotes).CreateCitation
+//@   requires wfFootnotes(f)
+//@   modifies f.footnotes, map(f.indexes)
+//@   ensures wfFootnotes(f)
+//@   ensures len(footnote) == 0 ==> len(result) == 0 && len(f.footnotes) == old(len(f.footnotes))
+//@   ensures len(footnote) > 0 && old(has(f.indexes, keyof(footnote))) ==> len(f.footnotes) == old(len(f.footnotes)) && f.indexes[keyof(footnote)] == old(f.indexes[keyof(footnote)])
+//@   ensures len(footnote) > 0 && !old(has(f.indexes, keyof(footnote))) ==> len(f.footnotes) == old(len(f.footnotes)) + 1 && f.indexes[keyof(footnote)] == old(len(f.footnotes)) + 1 && keyof(f.footnotes[len(f.footnotes)-1]) == keyof(footnote)
+//@   ensures forall t Key :: old(has(f.indexes, t)) ==> has(f.indexes, t) && f.indexes[t] == old(f.indexes[t])
+//@   ensures forall i int :: 0 <= i && i < old(len(f.footnotes)) ==> keyof(f.footnotes[i]) == old(keyof(f.footnotes[i]))
+
+// ---------------------------------------------------------------- output.go (C11, C05 presentation, C07 renderer)
+// q = value/reference in float64 arithmetic (exactly the expression used by
+// the table and by JSON v2). From C11: a row is shown iff q >= threshold or
+// the value is saturated; floor(q) asterisks up to 30, exclamation marks
+// beyond; a saturated value is always shown at the highest level (C05).
+//@ func (*item).levelOfConcern
+//@   requires i.scale > 0.0 && finite(i.scale)
+//@   pure
+//@   let q = float64(hval(i.value)) / i.scale
+//@   ensures result1 == (hovf(i.value) || !(q < float64(threshold)))
+//@   ensures result1 && (hovf(i.value) || q > 30.0) ==> result0 == "!!!!!!!!!!!!!!!!!!!!!!!!!!!!!!"
+//@   ensures result1 && !hovf(i.value) && !(q > 30.0) ==> len(result0) == trunc(q) && hasPrefix("******************************", result0)
+//@   ensures !result1 ==> len(result0) == 0
+
+//@ lemma threshold_monotone: forall v uint64, sc, t1, t2 float64 :: sc > 0.0 && finite(sc) && t1 <= t2 && !(float64(v) / sc < t2) ==> !(float64(v) / sc < t1)
+//@ lemma verbose_shows_all: forall v uint64, sc float64 :: sc > 0.0 && finite(sc) ==> !(float64(v) / sc < 0.0)
+
+//@ func (*Path).TreePrefix
+//@   pure
+//@ func (*Path).Path
+//@   pure
+//@ func (*Path).BestPath
+//@   pure
+//@ func (*Path).String
+//@   pure
+
+//@ func (*item).Footnote
+//@   requires nameStyle >= 0 && nameStyle <= 2
+//@   pure
+//@   ensures nameStyle == 0 ==> len(result) == 0
+//@   ensures i.path == nil ==> len(result) == 0
+
+// formatRow never slices outside `spaces` whatever the nesting depth (C07).
+//@ func (*table).formatRow
+//@   requires t.indent >= 0
+//@   pure
